@@ -459,3 +459,314 @@ Proof.
   exists (map fix_empty (expand_items its)), (fix_empty raw). split; [reflexivity|]. split; [apply in_map; exact Hin|].
   apply parse_template_err. exact Hp.
 Qed.
+
+(* ======== finer: what is wrong inside the braces ======== *)
+(* the text between the braces of the parameter spanning [s, s+l) *)
+Definition inside (raw : bytes) (s l : nat) : bytes := firstn (l - 2) (skipn (S s) raw).
+
+Definition strip_star (n : bytes) : bytes := if hd_is STAR n then tl n else n.
+
+(* the cause each parameter error states, in terms of the text between the braces split at its first ':' *)
+Definition cause_ok (content : bytes) (e : terr) : Prop :=
+  let name := fst (split_colon content) in
+  let constraint := snd (split_colon content) in
+  match e with
+  | EEmptyParameter _ _ _ => name = []
+  | EEmptyWildcard _ _ _ => name = [STAR]
+  | EInvalidParameter _ n _ _ => n = strip_star name /\ (existsb invalid_name_char n = true \/ utf8_valid n = false)
+  | EEmptyConstraint _ _ _ => constraint = Some []
+  | EInvalidConstraint _ c _ _ => constraint = Some c /\ (existsb invalid_name_char c = true \/ utf8_valid c = false)
+  | _ => True
+  end.
+
+Lemma impl_tail_cause raw cursor len en name constraint e :
+  impl_tail raw cursor len en name constraint = Err e ->
+  match e with
+  | EEmptyParameter _ _ _ => name = []
+  | EEmptyWildcard _ _ _ => name = [STAR]
+  | EInvalidParameter _ n _ _ => n = strip_star name /\ (existsb invalid_name_char n = true \/ utf8_valid n = false)
+  | EEmptyConstraint _ _ _ => constraint = Some []
+  | EInvalidConstraint _ c _ _ => constraint = Some c /\ (existsb invalid_name_char c = true \/ utf8_valid c = false)
+  | _ => True
+  end.
+Proof.
+  unfold impl_tail, strip_star. destruct name as [|n0 name']; [intros H; injection H as <-; reflexivity|].
+  cbv zeta. remember (if hd_is STAR (n0 :: name') then tl (n0 :: name') else n0 :: name') as nm eqn:Enm.
+  destruct (hd_is STAR (n0 :: name') && match nm with [] => true | _ :: _ => false end)%bool eqn:Ew.
+  { intros H. injection H as <-. apply andb_true_iff in Ew as [Hs Hn]. rewrite Hs in Enm. cbn [hd_is] in Hs. apply N.eqb_eq in Hs. subst n0.
+    cbn [tl] in Enm. subst nm. destruct name'; [reflexivity|discriminate]. }
+  rewrite !has_invalid_spec.
+  destruct (existsb invalid_name_char nm) eqn:Ei.
+  { intros H. injection H as <-. split; [exact Enm|left; exact Ei]. }
+  destruct constraint as [[|c1 cs]|].
+  - intros H. injection H as <-. reflexivity.
+  - rewrite has_invalid_spec. destruct (existsb invalid_name_char (c1 :: cs)) eqn:Eic.
+    { intros H. injection H as <-. split; [reflexivity|left; exact Eic]. }
+    destruct (utf8_valid nm) eqn:Eu; cbn [negb].
+    + destruct (utf8_valid (c1 :: cs)) eqn:Euc; cbn [negb]; [discriminate|].
+      intros H. injection H as <-. split; [reflexivity|right; exact Euc].
+    + intros H. injection H as <-. split; [exact Enm|right; exact Eu].
+  - destruct (utf8_valid nm) eqn:Eu; cbn [negb]; [discriminate|].
+    intros H. injection H as <-. split; [exact Enm|right; exact Eu].
+Qed.
+
+Definition err_span (e : terr) : option (nat * nat) :=
+  match e with
+  | EEmptyParameter _ s l | EEmptyWildcard _ s l | EEmptyConstraint _ s l
+  | EInvalidParameter _ _ s l | EInvalidConstraint _ _ s l => Some (s, l)
+  | _ => None
+  end.
+
+Definition cause_at (raw : bytes) (e : terr) : Prop :=
+  match err_span e with Some (s, l) => cause_ok (inside raw s l) e | None => True end.
+
+Lemma parameter_part_cause (raw : bytes) cursor e :
+  nth_error raw cursor = Some LB -> parameter_part raw cursor = Err e -> cause_at raw e.
+Proof.
+  intros Hn. assert (Hlt : cursor < length raw) by (apply nth_error_Some; congruence).
+  pose proof (brace_scan_spec (S (length raw)) raw (S cursor) 1) as Hb. cbn [Nat.sub] in Hb.
+  unfold parameter_part.
+  destruct (brace_content (skipn (S cursor) raw) 0) as [[content rest]|].
+  2:{ destruct Hb as (e0 & c' & -> & Hne); [lia|lia|lia|]. cbn [bind]. destruct c'; [congruence|]. cbn [Nat.eqb negb].
+      intros H. injection H as <-. exact I. }
+  destruct Hb as (en & -> & H1 & H2 & H3 & H4); [lia|lia|lia|]. cbn [bind Nat.eqb negb].
+  rewrite (slice_val raw (S cursor) en 22) by lia.
+  assert (Hcont : firstn (en - S cursor) (skipn (S cursor) raw) = content) by (rewrite H3; apply firstn_exact; exact H4).
+  rewrite Hcont. cbn [bind].
+  destruct content as [|c0 content']; [intros H; injection H as <-; exact I|].
+  cbv beta iota. remember (c0 :: content') as content eqn:Econt.
+  assert (Hsplit : exists name constraint,
+     match find_colon content with
+     | None => Ret (content, None)
+     | Some cp => do a <- slice content 0 cp 23; do b <- slice content (S cp) (length content) 24; Ret (a, Some b)
+     end = @Ret (bytes * option bytes) (name, constraint) /\ split_colon content = (name, constraint)).
+  { pose proof (find_colon_split content) as Hf. destruct (find_colon content) as [cp|] eqn:Ef.
+    - destruct Hf as (Hs & Hl & _). rewrite (slice_val content 0 cp 23) by lia. cbn [bind].
+      rewrite (slice_val content (S cp) (length content) 24) by lia. cbn [bind skipn]. rewrite Nat.sub_0_r.
+      rewrite (firstn_all2 (skipn (S cp) content)) by (rewrite skipn_length; lia). eauto.
+    - eauto. }
+  destruct Hsplit as (name & constraint & Hsp & Hspec).
+  match goal with |- context [bind ?m _] =>
+    match m with
+    | match find_colon content with _ => _ end => replace m with (@Ret (bytes * option bytes) (name, constraint)) by (symmetry; exact Hsp)
+    end end.
+  cbn [bind]. rewrite (subn_ok en cursor 25) by lia. cbn [bind].
+  change (impl_tail raw cursor (en - cursor + 1) en name constraint = Err e -> cause_at raw e).
+  intros H. pose proof (impl_tail_cause _ _ _ _ _ _ _ H) as Hc.
+  pose proof (proj1 (impl_tail_cases raw cursor (en - cursor + 1) en name constraint) e H) as Hsp'.
+  unfold cause_at. destruct e; cbn [span_err] in Hsp'; try contradiction; destruct Hsp' as (-> & -> & ->); cbn [err_span];
+    unfold cause_ok, inside; replace (en - cursor + 1 - 2) with (en - S cursor) by lia; rewrite Hcont, Hspec; cbn [fst snd]; exact Hc.
+Qed.
+
+Lemma template_loop_cause : forall steps (raw : bytes) cursor seen parts e,
+  template_loop steps raw cursor seen parts = Err e -> cause_at raw e.
+Proof.
+  induction steps as [|steps IH]; intros raw cursor seen parts e H; [discriminate|].
+  rewrite template_loop_S in H.
+  destruct (Nat.ltb cursor (length raw)) eqn:El; [|discriminate].
+  apply bind_err in H as [H|(c & Hc & H)]; [destruct (idx_not_err _ _ _ _ H)|].
+  assert (En : nth_error raw cursor = Some c).
+  { unfold idx in Hc. destruct (nth_error raw cursor); inversion Hc; reflexivity. }
+  destruct (N.eqb c LB) eqn:ELB.
+  - assert (Hc' : c = LB) by (apply N.eqb_eq; exact ELB). subst c.
+    apply bind_err in H as [H|([p next] & Hp & H)]; [apply (parameter_part_cause raw cursor e En H)|].
+    destruct (match last_opt seen with Some (_, s, l) => if Nat.eqb cursor (s + l) then Some (s, l) else None | None => None end) as [[s l]|].
+    { apply bind_err in H as [H|(x & _ & H)]; [destruct (subn_not_err _ _ _ _ H)|]. injection H as <-. exact I. }
+    destruct (part_name p) as [name|]; [|apply (IH _ _ _ _ _ H)].
+    destruct (find _ seen) as [[[fn fs] fl]|].
+    + apply bind_err in H as [H|(x & _ & H)]; [destruct (subn_not_err _ _ _ _ H)|]. injection H as <-. exact I.
+    + apply bind_err in H as [H|(x & _ & H)]; [destruct (subn_not_err _ _ _ _ H)|]. apply (IH _ _ _ _ _ H).
+  - destruct (N.eqb c RB); [injection H as <-; exact I|].
+    apply bind_err in H as [H|([s next] & _ & H)]; [|apply (IH _ _ _ _ _ H)].
+    exfalso. clear -H. revert H. generalize (@nil byte) as acc. generalize cursor as en. generalize (S (length raw)) as st.
+    induction st as [|st IHs]; intros en acc H; [discriminate|]. cbn [static_part] in H.
+    destruct (Nat.ltb en (length raw)); [|discriminate].
+    apply bind_err in H as [H|(c0 & _ & H)]; [destruct (idx_not_err _ _ _ _ H)|].
+    destruct (N.eqb c0 BSL); [destruct (nth_error raw (S en)); apply (IHs _ _ H)|].
+    destruct (N.eqb c0 LB || N.eqb c0 RB)%bool; [discriminate|apply (IHs _ _ H)].
+Qed.
+
+Lemma parse_template_cause (raw : bytes) e : parse_template raw = Err e -> cause_at raw e.
+Proof.
+  unfold parse_template. destruct (match raw with [] => false | b :: _ => negb (N.eqb b SL) end).
+  - intros H. injection H as <-. exact I.
+  - intros H. apply bind_err in H as [H|(ps & _ & H)]; [|discriminate]. apply (template_loop_cause _ _ _ _ _ _ H).
+Qed.
+
+(* C14, complete for the parameter errors: the error also states correctly WHAT is wrong between the braces *)
+Theorem parse_err_cause (t : bytes) e :
+  parse t = Err e ->
+  (e = EEmpty /\ t = []) \/ paren_err_ok t e
+  \/ exists es raw, expansions_spec t = Some es /\ In raw es /\ tmpl_err_ok raw e /\ cause_at raw e.
+Proof.
+  unfold parse. destruct t as [|b t']; [intros H; inversion H; left; auto|].
+  remember (b :: t') as t eqn:Et. intros H.
+  apply bind_err in H as [H|(raws & Hr & H)]; [right; left; apply expand_err_ok; exact H|].
+  right; right. apply map_out_err in H as (raw & Hin & Hp).
+  pose proof (expand_spec t) as Hs. rewrite Hr in Hs. cbn [to_opt] in Hs.
+  rewrite expansions_spec_G. destruct (G t) as [its [|] rest|]; try discriminate. destruct rest; [|discriminate].
+  cbn [denote] in Hs. inversion Hs; subst raws.
+  exists (map fix_empty (expand_items its)), (fix_empty raw). split; [reflexivity|]. split; [apply in_map; exact Hin|].
+  split; [apply parse_template_err; exact Hp|apply parse_template_cause; exact Hp].
+Qed.
+
+(* ---- duplicates: both parameters carry the reported name ---- *)
+Definition name_inside (raw : bytes) (s l : nat) : bytes := strip_star (fst (split_colon (inside raw s l))).
+
+Lemma impl_tail_ret_name raw cursor len en name constraint p next :
+  impl_tail raw cursor len en name constraint = Ret (p, next) -> part_name p = Some (strip_star name).
+Proof.
+  unfold impl_tail, strip_star. destruct name as [|n0 name']; [discriminate|]. cbv zeta.
+  destruct (hd_is STAR (n0 :: name')) eqn:Ew; cbn [andb].
+  - cbn [tl]. destruct name' as [|n1 name'']; [discriminate|].
+    destruct (has_invalid _); [discriminate|].
+    destruct constraint as [[|c1 cs]|].
+    + discriminate.
+    + destruct (has_invalid (c1 :: cs)); [discriminate|]. destruct (negb (utf8_valid _)); [discriminate|].
+      destruct (negb (utf8_valid (c1 :: cs))); [discriminate|]. intros H; injection H as <- _; reflexivity.
+    + destruct (negb (utf8_valid _)); [discriminate|]. cbn [negb]. intros H; injection H as <- _; reflexivity.
+  - destruct (has_invalid _); [discriminate|].
+    destruct constraint as [[|c1 cs]|].
+    + discriminate.
+    + destruct (has_invalid (c1 :: cs)); [discriminate|]. destruct (negb (utf8_valid _)); [discriminate|].
+      destruct (negb (utf8_valid (c1 :: cs))); [discriminate|]. intros H; injection H as <- _; reflexivity.
+    + destruct (negb (utf8_valid _)); [discriminate|]. cbn [negb]. intros H; injection H as <- _; reflexivity.
+Qed.
+
+Lemma parameter_part_ret_name (raw : bytes) cursor p next :
+  nth_error raw cursor = Some LB -> parameter_part raw cursor = Ret (p, next) ->
+  part_name p = Some (name_inside raw cursor (next - cursor)).
+Proof.
+  intros Hn. assert (Hlt : cursor < length raw) by (apply nth_error_Some; congruence).
+  pose proof (brace_scan_spec (S (length raw)) raw (S cursor) 1) as Hb. cbn [Nat.sub] in Hb.
+  unfold parameter_part.
+  destruct (brace_content (skipn (S cursor) raw) 0) as [[content rest]|].
+  2:{ destruct Hb as (e0 & c' & -> & Hne); [lia|lia|lia|]. cbn [bind]. destruct c'; [congruence|]. discriminate. }
+  destruct Hb as (en & -> & H1 & H2 & H3 & H4); [lia|lia|lia|]. cbn [bind Nat.eqb negb].
+  rewrite (slice_val raw (S cursor) en 22) by lia.
+  assert (Hcont : firstn (en - S cursor) (skipn (S cursor) raw) = content) by (rewrite H3; apply firstn_exact; exact H4).
+  rewrite Hcont. cbn [bind].
+  destruct content as [|c0 content']; [discriminate|].
+  cbv beta iota. remember (c0 :: content') as content eqn:Econt.
+  assert (Hsplit : exists name constraint,
+     match find_colon content with
+     | None => Ret (content, None)
+     | Some cp => do a <- slice content 0 cp 23; do b <- slice content (S cp) (length content) 24; Ret (a, Some b)
+     end = @Ret (bytes * option bytes) (name, constraint) /\ split_colon content = (name, constraint)).
+  { pose proof (find_colon_split content) as Hf. destruct (find_colon content) as [cp|] eqn:Ef.
+    - destruct Hf as (Hs & Hl & _). rewrite (slice_val content 0 cp 23) by lia. cbn [bind].
+      rewrite (slice_val content (S cp) (length content) 24) by lia. cbn [bind skipn]. rewrite Nat.sub_0_r.
+      rewrite (firstn_all2 (skipn (S cp) content)) by (rewrite skipn_length; lia). eauto.
+    - eauto. }
+  destruct Hsplit as (name & constraint & Hsp & Hspec).
+  match goal with |- context [bind ?m _] =>
+    match m with
+    | match find_colon content with _ => _ end => replace m with (@Ret (bytes * option bytes) (name, constraint)) by (symmetry; exact Hsp)
+    end end.
+  cbn [bind]. rewrite (subn_ok en cursor 25) by lia. cbn [bind].
+  change (impl_tail raw cursor (en - cursor + 1) en name constraint = Ret (p, next) -> part_name p = Some (name_inside raw cursor (next - cursor))).
+  intros H. rewrite (impl_tail_ret_name _ _ _ _ _ _ _ _ H).
+  pose proof (proj2 (impl_tail_cases raw cursor (en - cursor + 1) en name constraint) p next H) as ->.
+  unfold name_inside, inside. replace (S en - cursor - 2) with (en - S cursor) by lia. rewrite Hcont, Hspec. reflexivity.
+Qed.
+
+Lemma parameter_part_not_dup (raw : bytes) cursor t n f fl s sl :
+  nth_error raw cursor = Some LB -> parameter_part raw cursor <> Err (EDuplicateParameter t n f fl s sl).
+Proof.
+  intros Hn. assert (Hlt : cursor < length raw) by (apply nth_error_Some; congruence).
+  pose proof (brace_scan_spec (S (length raw)) raw (S cursor) 1) as Hb. cbn [Nat.sub] in Hb.
+  unfold parameter_part.
+  destruct (brace_content (skipn (S cursor) raw) 0) as [[content rest]|].
+  2:{ destruct Hb as (e0 & c' & -> & Hne); [lia|lia|lia|]. cbn [bind]. destruct c'; [congruence|]. discriminate. }
+  destruct Hb as (en & -> & H1 & H2 & H3 & H4); [lia|lia|lia|]. cbn [bind Nat.eqb negb].
+  rewrite (slice_val raw (S cursor) en 22) by lia.
+  assert (Hcont : firstn (en - S cursor) (skipn (S cursor) raw) = content) by (rewrite H3; apply firstn_exact; exact H4).
+  rewrite Hcont. cbn [bind].
+  destruct content as [|c0 content']; [discriminate|].
+  cbv beta iota. remember (c0 :: content') as content eqn:Econt.
+  assert (Hsplit : exists name constraint,
+     match find_colon content with
+     | None => Ret (content, None)
+     | Some cp => do a <- slice content 0 cp 23; do b <- slice content (S cp) (length content) 24; Ret (a, Some b)
+     end = @Ret (bytes * option bytes) (name, constraint)).
+  { pose proof (find_colon_split content) as Hf. destruct (find_colon content) as [cp|] eqn:Ef.
+    - destruct Hf as (Hs & Hl & _). rewrite (slice_val content 0 cp 23) by lia. cbn [bind].
+      rewrite (slice_val content (S cp) (length content) 24) by lia. cbn [bind skipn]. eauto.
+    - eauto. }
+  destruct Hsplit as (name & constraint & Hsp).
+  match goal with |- context [bind ?m _] =>
+    match m with
+    | match find_colon content with _ => _ end => replace m with (@Ret (bytes * option bytes) (name, constraint)) by (symmetry; exact Hsp)
+    end end.
+  cbn [bind]. rewrite (subn_ok en cursor 25) by lia. cbn [bind].
+  change (impl_tail raw cursor (en - cursor + 1) en name constraint <> Err (EDuplicateParameter t n f fl s sl)).
+  intros H. apply (proj1 (impl_tail_cases raw cursor (en - cursor + 1) en name constraint) _ H).
+Qed.
+
+Definition seen_named (raw : bytes) (seen : list (bytes * nat * nat)) : Prop :=
+  forall n s l, In (n, s, l) seen -> n = name_inside raw s l.
+
+Definition dup_ok (raw : bytes) (e : terr) : Prop :=
+  match e with
+  | EDuplicateParameter _ n f fl s sl => n = name_inside raw f fl /\ n = name_inside raw s sl
+  | _ => True
+  end.
+
+Lemma template_loop_dup : forall steps (raw : bytes) cursor seen parts e,
+  seen_named raw seen -> template_loop steps raw cursor seen parts = Err e -> dup_ok raw e.
+Proof.
+  induction steps as [|steps IH]; intros raw cursor seen parts e Hseen H; [discriminate|].
+  rewrite template_loop_S in H.
+  destruct (Nat.ltb cursor (length raw)) eqn:El; [|discriminate].
+  apply bind_err in H as [H|(c & Hc & H)]; [destruct (idx_not_err _ _ _ _ H)|].
+  assert (En : nth_error raw cursor = Some c).
+  { unfold idx in Hc. destruct (nth_error raw cursor); inversion Hc; reflexivity. }
+  destruct (N.eqb c LB) eqn:ELB.
+  - assert (Hc' : c = LB) by (apply N.eqb_eq; exact ELB). subst c.
+    apply bind_err in H as [H|([p next] & Hp & H)].
+    { destruct e; try exact I. destruct (parameter_part_not_dup raw cursor _ _ _ _ _ _ En H). }
+    pose proof (parameter_part_ret_name raw cursor p next En Hp) as Hname.
+    destruct (parameter_part_shape raw cursor En) as [_ Hret]. destruct (Hret p next Hp) as (_ & Hn1 & Hn2).
+    destruct (match last_opt seen with Some (_, s, l) => if Nat.eqb cursor (s + l) then Some (s, l) else None | None => None end) as [[s l]|].
+    { apply bind_err in H as [H|(x & _ & H)]; [destruct (subn_not_err _ _ _ _ H)|]. injection H as <-. exact I. }
+    rewrite Hname in H.
+    destruct (find _ seen) as [[[fn fs] fl]|] eqn:Ef.
+    + apply find_some in Ef as [Hin Hb]. cbn [fst] in Hb. apply beqb_eq in Hb.
+      rewrite (subn_ok next cursor 32) in H by lia. cbn [bind] in H. injection H as <-.
+      cbn [dup_ok]. split; [|reflexivity]. rewrite <- Hb. apply (Hseen fn fs fl Hin).
+    + rewrite (subn_ok next cursor 33) in H by lia. cbn [bind] in H. refine (IH _ _ _ _ _ _ H). intros n s l Hin.
+      apply in_app_or in Hin as [Hin|[Heq|[]]]; [apply (Hseen n s l Hin)|]. inversion Heq; subst. reflexivity.
+  - destruct (N.eqb c RB); [injection H as <-; exact I|].
+    apply bind_err in H as [H|([s next] & _ & H)]; [|apply (IH _ _ _ _ _ Hseen H)].
+    exfalso. clear -H. revert H. generalize (@nil byte) as acc. generalize cursor as en. generalize (S (length raw)) as st.
+    induction st as [|st IHs]; intros en acc H; [discriminate|]. cbn [static_part] in H.
+    destruct (Nat.ltb en (length raw)); [|discriminate].
+    apply bind_err in H as [H|(c0 & _ & H)]; [destruct (idx_not_err _ _ _ _ H)|].
+    destruct (N.eqb c0 BSL); [destruct (nth_error raw (S en)); apply (IHs _ _ H)|].
+    destruct (N.eqb c0 LB || N.eqb c0 RB)%bool; [discriminate|apply (IHs _ _ H)].
+Qed.
+
+Lemma parse_template_dup (raw : bytes) e : parse_template raw = Err e -> dup_ok raw e.
+Proof.
+  unfold parse_template. destruct (match raw with [] => false | b :: _ => negb (N.eqb b SL) end).
+  - intros H. injection H as <-. exact I.
+  - intros H. apply bind_err in H as [H|(ps & _ & H)]; [|discriminate]. refine (template_loop_dup _ _ _ _ _ _ _ H). intros n s l [].
+Qed.
+
+(* C14, full: position (tmpl_err_ok), what is wrong between the braces (cause_at), and for duplicates
+   that both braced spans carry exactly the reported name (dup_ok) *)
+Theorem parse_err_full (t : bytes) e :
+  parse t = Err e ->
+  (e = EEmpty /\ t = []) \/ paren_err_ok t e
+  \/ exists es raw, expansions_spec t = Some es /\ In raw es /\ tmpl_err_ok raw e /\ cause_at raw e /\ dup_ok raw e.
+Proof.
+  unfold parse. destruct t as [|b t']; [intros H; inversion H; left; auto|].
+  remember (b :: t') as t eqn:Et. intros H.
+  apply bind_err in H as [H|(raws & Hr & H)]; [right; left; apply expand_err_ok; exact H|].
+  right; right. apply map_out_err in H as (raw & Hin & Hp).
+  pose proof (expand_spec t) as Hs. rewrite Hr in Hs. cbn [to_opt] in Hs.
+  rewrite expansions_spec_G. destruct (G t) as [its [|] rest|]; try discriminate. destruct rest; [|discriminate].
+  cbn [denote] in Hs. inversion Hs; subst raws.
+  exists (map fix_empty (expand_items its)), (fix_empty raw). split; [reflexivity|]. split; [apply in_map; exact Hin|].
+  split; [apply parse_template_err; exact Hp|]. split; [apply parse_template_cause; exact Hp|apply parse_template_dup; exact Hp].
+Qed.
